@@ -10,7 +10,7 @@ the very first access of a fresh model.
 import itertools
 import math
 
-from vp import wb, wbgen
+from vp import realbooks, wb, wbgen
 
 PROP = 'C05'
 LEVEL = 'exploration'
@@ -24,7 +24,7 @@ FLOORS = {
     'quick': {'orders': 2000, 'exhaustive_order_workbooks': 10, 'path:rect': 200, 'path:unbounded': 100,
               'path:list': 20, 'path:tuple': 20, 'path:generator': 20, 'path:sheetless': 60,
               'path:repeat': 60, 'path:first_access_range': 40, 'element_compares': 15000,
-              'cfg:xlsx-with-stale-stored-results': 8},
+              'cfg:xlsx-with-stale-stored-results': 8, 'real_book_cases': 40, 'real_value_compares': 1500},
     'thorough': {'orders': 60000, 'exhaustive_order_workbooks': 400, 'path:unbounded': 4000,
                  'element_compares': 400000},
 }
@@ -430,6 +430,8 @@ def run(ctx):
         array_edge_cases(ctx)
     if ctx.shard == 1 % ctx.nshards:
         context_books(ctx, rng)
+    # the workbooks shipped with the repository (date, text, lookup, ... functions; CSE arrays; several sheets)
+    realbooks.run_cases(ctx, realbooks.c05_case, realbooks.acyclic_books(), 6 if ctx.quick else 60, fraction=0.3)
     i = 0
     while not ctx.out_of_time():
         i += 1
@@ -452,6 +454,9 @@ def replay(ctx, case):
         return
     if case.get('kind') == 'array-edge':
         array_edge_cases(ctx)
+        return
+    if case.get('kind') == 'real-book':
+        realbooks.c05_case(ctx, case['book'], case['case_seed'])
         return
     book = Book(ctx, case['spec'], case['meta'])
     if case.get('kind') == 'order':
